@@ -170,12 +170,6 @@ func cmdCheck(args []string) {
 			known[k.Obligation] = k
 		}
 	}
-	for _, o := range all {
-		if _, isKnown := known[o.Name]; isKnown {
-			o.NoRetry = true // expected to fail: no second, longer attempt
-		}
-	}
-	dischargeAll(work, all, timeout)
 	lock := LockFile{}
 	_ = readJSON("/verif/obligations.lock.json", &lock)
 	locked := map[string]bool{}
@@ -197,7 +191,14 @@ func cmdCheck(args []string) {
 		}
 		return false
 	}
-
+	for _, o := range all {
+		if _, isKnown := known[o.Name]; isKnown {
+			o.NoRetry = true // expected to fail: no second, longer attempt
+		} else if !*writeLock && !o.Cover && !isLocked(o) {
+			o.NoRetry = true // never proved on the unchanged tree (reported as UNDECIDED): one short attempt
+		}
+	}
+	dischargeAll(work, all, timeout)
 	violations := 0
 	var undecided, knownHit []string
 	seen := map[string]bool{}
